@@ -809,4 +809,62 @@ theorem sql_keys_inv (sc : Schema) (n : Nat) (ops : List Op) (h : ∀ op ∈ ops
   rw [(sqlSim_run ops _ _ (sqlSim_init sc (.typed n))).2.root]
   exact (keysInv_run ops _ (tyInv_init sc (.typed n)) (keysInv_init sc n) h).1.root
 
+
+/-! ### persistence round trips cannot be observed -/
+
+theorem mem_persist_id (m : Mem) (p : Persist) : m.persist p = m := rfl
+
+theorem mem_erase_persist (ops : List OpP) : ∀ m : Mem,
+    outsAtOps ops (runOutsP Mem.stepP m ops) = runOuts Mem.step m (ops.filterMap OpP.op?) ∧
+    runStateP Mem.stepP m ops = runState Mem.step m (ops.filterMap OpP.op?) := by
+  induction ops with
+  | nil => intro m; exact ⟨rfl, rfl⟩
+  | cons op ops ih =>
+    intro m
+    cases op with
+    | op o =>
+      have := ih (Mem.step m o).1
+      simp only [runOutsP, runStateP, Mem.stepP, outsAtOps, List.filterMap_cons, OpP.op?, runOuts, runState]
+      exact ⟨by rw [this.1], this.2⟩
+    | persist p =>
+      have := ih m
+      simp only [runOutsP, runStateP, Mem.stepP, outsAtOps, List.filterMap_cons, OpP.op?, mem_persist_id]
+      exact this
+
+theorem sql_persist_rel (q : Sql) (p : Persist) :
+    (q.persist p).sc = q.sc ∧ (q.persist p).ty = q.ty ∧ (q.persist p).abs = q.abs ∧ (q.persist p).held = q.held := by
+  cases p with
+  | reopen => exact ⟨rfl, rfl, rfl, rfl⟩
+  | copyRun =>
+    refine ⟨rfl, rfl, ?_, rfl⟩
+    cases q with
+    | mk sc ty row held => cases row <;> rfl
+  | migrate =>
+    refine ⟨rfl, rfl, ?_, rfl⟩
+    have h := Sql.abs_ty q
+    simp only [Sql.persist]
+    show (⟨q.ty, q.abs.data⟩ : Root) = q.abs
+    rw [← h]
+
+theorem sql_erase_persist (ops : List OpP) : ∀ {q q' : Sql}, q.sc = q'.sc → q.ty = q'.ty → q.abs = q'.abs → q.held = q'.held →
+    outsAtOps ops (runOutsP Sql.stepP q ops) = runOuts Sql.step q' (ops.filterMap OpP.op?) ∧
+    (runStateP Sql.stepP q ops).abs = (runState Sql.step q' (ops.filterMap OpP.op?)).abs ∧
+    (runStateP Sql.stepP q ops).held = (runState Sql.step q' (ops.filterMap OpP.op?)).held := by
+  induction ops with
+  | nil => intro q q' _ _ ha hh; exact ⟨rfl, ha, hh⟩
+  | cons op ops ih =>
+    intro q q' hsc hty habs hheld
+    cases op with
+    | op o =>
+      obtain ⟨h1, h2⟩ := sql_step_abs_indep hsc hty habs o
+      obtain ⟨ho, hsc', hty', habs'⟩ := h1 (Or.inr hheld)
+      have := ih hsc' hty' habs' (h2 hheld)
+      simp only [runOutsP, runStateP, Sql.stepP, outsAtOps, List.filterMap_cons, OpP.op?, runOuts, runState]
+      exact ⟨by rw [ho, this.1], this.2⟩
+    | persist p =>
+      obtain ⟨a, b, c, d⟩ := sql_persist_rel q p
+      have := ih (q := q.persist p) (q' := q') (by rw [a, hsc]) (by rw [b, hty]) (by rw [c, habs]) (by rw [d, hheld])
+      simp only [runOutsP, runStateP, Sql.stepP, outsAtOps, List.filterMap_cons, OpP.op?]
+      exact this
+
 end StateStore
